@@ -538,15 +538,15 @@ theorem checkAggrFunctionArgs_pos : ∀ e : Expr, PosOK S e →
   | _ => intro _; unfold checkAggrFunctionArgs; simp
 
 theorem validateFields_pos : ∀ (n i : Nat) {tbl : Tbl}, TblOK S tbl →
-    Pos S (validateFields n i tbl) (fun _ => True) := by
+    Pos S (validateFields n i tbl) (fun r => TblOK S r) := by
   intro n
   induction n with
-  | zero => intro i tbl _; simp [validateFields]
+  | zero => intro i tbl ht; simpa [validateFields] using ht
   | succ m ih =>
     intro i tbl ht
     unfold validateFields
     split
-    · simp
+    · simpa using ht
     · rename_i nm f hget
       apply Res.Holds.bind (check_pos S h0 _ ht f (getElem_ok S ht hget)); intro f' hf'
       apply Res.Holds.bind (checkAggrFunctionArgs_pos S h0 f' hf'); intro _ _
@@ -573,6 +573,22 @@ theorem rewriteFieldNames_pos : ∀ (n i : Nat) {tbl : Tbl} (tys : List Nat), Tb
         · exact ih _ _ ht
       · exact ih _ _ ht
 
+omit h0 in
+theorem refreshTypes_pos (tbl : Tbl) : ∀ (tys : List Nat) (i : Nat), Pos S (refreshTypes tbl i tys) (fun _ => True) := by
+  intro tys
+  induction tys with
+  | nil => intro i; simp [refreshTypes]
+  | cons t ts ih =>
+    intro i
+    unfold refreshTypes
+    apply Res.Holds.bind (Q := fun _ => True)
+    · split
+      · exact rt_pos S _ _
+      · simp
+    · intro _ _
+      apply Res.Holds.bind (ih _); intro _ _
+      simp
+
 theorem parseWhere_pos (efuel lfuel spos : Nat) (sel : SelAcc) (hs : PosOKs S sel.fields)
     (wpos : Nat) {ts : Toks} (h : TokS S ts) :
     Pos S (parseWhere pf efuel lfuel spos sel wpos ts) (fun _ => True) := by
@@ -592,12 +608,14 @@ theorem parseWhere_pos (efuel lfuel spos : Nat) (sel : SelAcc) (hs : PosOKs S se
     dsimp only
     apply Res.Holds.bind (clauseLoop_pos S h0 pf efuel lfuel lfuel _ htbl1 h1)
     intro c hc
-    apply Res.Holds.bind (check_pos S h0 _ hc e he); intro e' he'
+    apply Res.Holds.bind (validateFields_pos S h0 _ _ hc); intro tbl2 htbl2
+    apply Res.Holds.bind (validateFields_pos S h0 _ _ htbl2); intro tbl3 htbl3
+    apply Res.Holds.bind (refreshTypes_pos S _ _ _); intro _ _
+    apply Res.Holds.bind (check_pos S h0 _ htbl3 e he); intro e' he'
     apply Res.Holds.bind (rt_pos S _ _); intro _ _
     split
     · exact synErr_node S h0 he' _
-    · apply Res.Holds.bind (validateFields_pos S h0 _ _ hc); intro _ _
-      simp
+    · simp
 
 omit h0 in
 theorem trimEndSemis_sub (toks : Toks) : ∀ t ∈ trimEndSemis toks, t ∈ toks := by
